@@ -126,7 +126,7 @@ CLAIMS = {
     ),
     "C20": dict(
         engine="net",
-        text="Lean 4 on the per-connection handshake-task model (Model/Net.lean): a step of connection c's task changes no other connection, no bind table, no socket's liveness (locality); what it concludes is a function of c's OWN bytes and the local socket type only (non-interference: a peer supplying a valid greeting + compatible READY is registered by its own step whatever the other connections do); accepting depends on the bind tables only; a failing handshake appends exactly one AcceptFailed and closes the connection. PARTIAL: that the code really runs one task per connection is OBSERVED. Tie: real runtime, TCP + IPC, every bound socket type: raw clients that stop / close / send garbage at byte offset k of greeting+READY (boundary grid quick, every offset thorough), 1..3 at once, and bursts of connections ABORTED (RST) right after connect, with good clients before (established traffic continues), during and after; monitor event multiset compared; model predicts every outcome class.",
+        text="Lean 4 on the per-connection handshake-task model (Model/Net.lean): a step of connection c's task changes no other connection, no bind table, no socket's liveness (locality); what it concludes is a function of c's OWN bytes and the local socket type only (non-interference: a peer supplying a valid greeting + compatible READY is registered by its own step whatever the other connections do); accepting depends on the bind tables only; a failing handshake appends exactly one AcceptFailed and closes the connection. PARTIAL: that the code really runs one task per connection is OBSERVED. Tie: real runtime, TCP + IPC, every bound socket type: raw clients that stop / close / send garbage at byte offset k of greeting+READY (boundary grid quick; thorough: every offset for PULL and ROUTER, the grid for the other types), 1..3 at once, and bursts of connections ABORTED (RST) right after connect, with good clients before (established traffic continues), during and after; monitor event multiset compared; model predicts every outcome class.",
         note=LEAN_NOTE + "tokio task scheduling and the kernel accept queue observed, not modelled; Disconnected events not compared",
         technique="Lean 4 proof (locality + non-interference of per-connection tasks) + real-runtime stall/garbage-offset correspondence",
     ),
